@@ -366,17 +366,33 @@ func (w *webSocket) initPingPong() {
 }
 
 func (w *webSocket) onPing(appData string) error {
+	// The write routine closes the ping channel and drops the connection during cleanup:
+	// hold the read lock like every other producer does
+	w.mutex.RLock()
+	defer w.mutex.RUnlock()
 	conn := w.connection
+	if conn == nil {
+		return fmt.Errorf("ping received on closed connection %s", w.id)
+	}
 	w.log.Debugf("ping received from %s: %s", w.id, appData)
 	// Schedule pong message via dedicated channel
-	w.pingC <- []byte(appData)
+	select {
+	case w.pingC <- []byte(appData):
+	case <-w.doneC:
+		return fmt.Errorf("ping received on closed connection %s", w.id)
+	}
 	w.log.Debugf("pong scheduled for %s", w.id)
 	// Reset read interval after receiving a ping
 	return conn.SetReadDeadline(w.getReadTimeout())
 }
 
 func (w *webSocket) onPong(appData string) error {
+	w.mutex.RLock()
+	defer w.mutex.RUnlock()
 	conn := w.connection
+	if conn == nil {
+		return fmt.Errorf("pong received on closed connection %s", w.id)
+	}
 	w.log.Debugf("pong received from %s: %s", w.id, appData)
 	// Reset read interval after receiving a pong
 	return conn.SetReadDeadline(w.getReadTimeout())
